@@ -4,6 +4,7 @@
    from states.py. *)
 From Coq Require Import ZArith List Bool.
 From RP Require Import Gen.StatesTables States.Model States.Proofs States.Inst.
+From RP Require States.DeathRace.
 Import ListNotations.
 Open Scope Z_scope.
 
@@ -74,3 +75,18 @@ Example C06_nonvacuous :
       (2, T_TMGR_STAGING_OUTPUT_PENDING); (2, T_TMGR_STAGING_OUTPUT); (2, T_DONE);
       (1, T_CANCELED)]).
 Proof. vm_compute. reflexivity. Qed.
+
+(* the other thread that changes task states on the client: when a pilot dies,
+   the pilot manager's callback thread fails its tasks (TaskManager._pilot_state_cb)
+   while the state subscriber may be handling a notification for the same task.
+   Both run under the tasks lock; in either order at most one final state is
+   announced and it is the state the Task object ends in (every pair of task
+   states) -- the application never sees DONE and FAILED for one task. *)
+Module RaceSide.
+Import RP.States.DeathRace.
+Theorem C06_one_final_state_under_pilot_death :
+  forall cur tgt : tstate,
+    one_final (order_ud cur tgt) = true /\ one_final (order_du cur tgt) = true.
+Proof. exact death_race_one_final. Qed.
+Print Assumptions C06_one_final_state_under_pilot_death.
+End RaceSide.
